@@ -36,12 +36,14 @@ ASSUMPTIONS = [
     "(exp(-2 pi^2 tau^2 s^2)), as the property text fixes it; SpectralDeltaKernel: 1/S sum_s cos(2 pi z_s . (x - x') / l)",
     "documented stabilisers are part of the reference: CylindricalKernel eps inside the Kumaraswamy warping, the 1e-8 variance jitter of the "
     "symmetrised KL; CylindricalKernel inputs have no exactly-zero coordinate",
-    "tolerance 1e-9 (abs + rel to the largest reference entry). Exception, 1e-6: kernels whose formula has a NON-zero slope in the distance r "
-    "at r = 0 (Matern-1/2, piecewise polynomial q = 0, the Hessian block of Matern52KernelGrad) on duplicated or 1e-9-apart rows, because the "
-    "library's distance sqrt(|a|^2 - 2ab + |b|^2) has absolute error ~ sqrt(c eps) |x| / l ~ 1e-8..1e-7 at r ~ 0 (cancellation before the square "
-    "root; observed <= 8e-8) and such a function passes it on; the defects the property names (coefficient, sign, layout, parameter) are O(1e-2..1)",
-    "Matern-5/2 derivative reference at exactly coincident rows is the analytic limit (value 1, gradient 0, Hessian 5/3 diag(1/l^2)), since "
-    "autograd through sqrt(0) is undefined; validated against a symmetric perturbation in refs.kernels._selftest",
+    "tolerance 1e-9 (abs + rel to the largest reference entry). Exception: MaternKernel(nu=0.5) and PiecewisePolynomialKernel(q=0) (slope "
+    "|k'(0)| != 0 in the distance r) in cells that contain a (nearly) coincident pair of rows, incl. the diagonal of x2 = x1: "
+    "1e-9 + |k'(0)| sqrt(4 (D+2) eps) S, S = largest centred, lengthscale-scaled row norm, i.e. the rounding bound of the library's "
+    "r = sqrt(|a|^2 - 2ab + |b|^2) at r ~ 0 (1e-7..1e-5; defects the property names - coefficient, sign, layout, parameter - are O(1e-2..1))",
+    "Matern52KernelGrad reference: autograd of the Matern-5/2 reference for pairs with scaled distance >= 1e-3; closer pairs use the closed-form "
+    "block printed in the class docstring, because autograd through sqrt(r^2) is undefined at r = 0 and loses eps / r to cancellation as "
+    "r -> 0; the closed form is validated in refs.kernels._selftest against autograd (generic pairs), a symmetric limit (a = b) and 40-digit "
+    "mpmath differentiation (r = 1e-9)",
     "HammingIMQKernel inputs are flattened one-hot sequences (vocabulary 3, length d); 'rows 1e-9 apart' is mapped to Hamming distance 1 and "
     "'far apart' to sequences that differ in every position",
 ]
@@ -63,7 +65,8 @@ SIMPLE = {
 }
 DERIV = {"rbfgrad": (True, True), "matern52grad": (True, True), "polygrad1": (False, True), "polygrad2": (False, True),
          "polygrad3": (False, True), "rbfgradgrad": (True, True)}
-KINKED = ("matern0.5", "pp0", "matern52grad")  # non-zero slope in r at r = 0 (value, or for the derivative kernel its Hessian block)
+KINKED = {"matern0.5": lambda D: 1.0, "pp0": lambda D: float(D // 2 + 1)}  # kernels with non-zero slope in r at r = 0: name -> |dk/dr|(0)
+EPS = 2.220446049250313e-16
 
 
 def _specs():
@@ -364,7 +367,24 @@ def call_kernel(k, x1, x2, mode, path):
         return util.dense(out).detach()
 
 
-def reference(cell, ref, bs, x1, x2, order, coincident=None):
+def kinked_tolerance(name, k, bs, x1, x2, D):
+    """Matern-1/2 and piecewise polynomial q = 0 have slope |k'(0)| != 0 in the distance r.  The library forms r^2 = |a|^2 - 2ab + |b|^2 on
+    mean-centred, lengthscale-scaled rows; rounding gives |err(r^2)| <= 4 (D + 2) eps S^2 with S the largest such row norm, hence
+    |err(r)| <= sqrt(4 (D + 2) eps) S when the true r is ~ 0.  Cells that contain a (nearly) coincident pair get
+    1e-9 + |k'(0)| sqrt(4 (D + 2) eps) S; all others the default 1e-9."""
+    x2 = x1 if x2 is None else x2
+    tol = 1e-9
+    for b in ([()] if not len(bs) else [(i,) for i in range(bs[0])]):
+        ls = _vec(k.lengthscale, b)
+        a, c = x1[b] / ls, x2[b] / ls
+        if float(torch.cdist(a, c).min()) < 1e-6:
+            m = x1[b].mean(-2, keepdim=True) / ls
+            S = float(torch.cat([a - m, c - m]).norm(dim=-1).max())
+            tol = max(tol, 1e-9 + KINKED[name](D) * (4 * (D + 2) * EPS) ** 0.5 * S)
+    return tol
+
+
+def reference(cell, ref, bs, x1, x2, order, near=None):
     """dense reference with the kernel's batch shape: all pairs of rows, batch element by batch element"""
     x2 = x1 if x2 is None else x2
     outs = []
@@ -374,7 +394,8 @@ def reference(cell, ref, bs, x1, x2, order, coincident=None):
         if order == 0:
             M = R.pairwise(f, a, c)
         else:
-            M = R.grad_layout(f, a, c, order=order, coincident=None if coincident is None else coincident(b))
+            kw = {} if near is None else {"near_block": R.matern52_grad_closed(near(b)), "near_r": R.scaled_dist(near(b))}
+            M = R.grad_layout(f, a, c, order=order, **kw)
         outs.append(M.diagonal() if cell["mode"] == "diag" else M)
     return outs[0] if not len(bs) else torch.stack(outs)
 
@@ -396,7 +417,7 @@ def run_cell(cell, seed):
     domain = leaves[0] if leaves[0] in ("hamming", "gskl", "cyl") else "real"
     D = {"hamming": d * VOCAB, "gskl": 2 * d}.get(domain, d)
     order = 2 if "rbfgradgrad" in leaves else (1 if cell["fam"] == "deriv" else 0)
-    tol = 1e-6 if (any(l in KINKED for l in leaves) and cell["geom"] in ("dup", "near")) else 1e-9
+    tol = 1e-9
     notes = {}
     evaluated = False
     with fails.guard("build"):
@@ -406,8 +427,11 @@ def run_cell(cell, seed):
             f.setdefault("features", feats)
         return {"fails": fails, "sig": f"{cell['fam']}:build-failed", "features": feats, "ops": 1, "nontrivial": False}
     x1, x2 = make_inputs(cell, g, tuple(ctx.bs), D, domain)
-    coincident = (lambda b: R.matern52_grad_coincident(_vec(k.lengthscale, b))) if "matern52grad" in leaves else None
-    want = reference(cell, ref, tuple(ctx.bs), x1, x2, order, coincident)
+    near = (lambda b: _vec(k.lengthscale, b)) if "matern52grad" in leaves else None
+    want = reference(cell, ref, tuple(ctx.bs), x1, x2, order, near)
+    if name in KINKED:
+        tol = kinked_tolerance(name, k, tuple(ctx.bs), x1, x2, D)
+        notes["kinked_tolerance_cells"] = int(tol > 1e-9)
     with fails.guard("value"):
         got = call_kernel(k, x1, x2, cell["mode"], cell["path"])
         evaluated = True
